@@ -46,6 +46,7 @@ class Contract:
                                                # loop condition) and the listed axioms *only*, then available to the code after the loop
     ghost_state: dict = field(default_factory=dict)   # name -> (T, f(o) -> Sym): specification-only variables, read in invariants as e.get('$g.<name>')
     ghost_updates: dict = field(default_factory=dict) # loop ordinal -> f(e) -> {name: Sym}: assignment executed at the end of every iteration of that loop
+    if_ordinals: bool = False                  # number loops inside `if` blocks separately (if<k>.<n>); off: they restart at <n> and may share an invariant with a top-level loop
     entry_lemmas: object = None                # f(o) -> [(name, [local axioms], Bool)]: consequences of the precondition, each proved *in isolation*
                                                # (from the precondition and the listed axioms only), then available to every later obligation
 
@@ -226,6 +227,8 @@ class Engine:
             if other.t is TNone: return BoolVal(True)
             if isinstance(other.t, TVal) and other.t.name in self.w.none_consts:
                 return other.term == self.w.none_consts[other.t.name]
+            if other.t is not None and other.t.name in getattr(self.w, 'none_tests', {}):          # Optional[...] modelled as a record with an is-None flag
+                return self.w.none_tests[other.t.name](other)
             return BoolVal(False)          # a collection / object is never None
         if l.t != r.t:
             hook = getattr(self.w, 'equal_hook', None)
@@ -567,9 +570,10 @@ class Engine:
 
     # ------------------------------------------------------------------ statements
     def ex_block(self, stmts, st, path):
-        outs = [(st, 'normal')]; li = 0
+        outs = [(st, 'normal')]; li = 0; ii = 0
         for s in stmts:
             nxt = []
+            if isinstance(s, ast.If): s._if_index = ii; ii += 1
             for cur, oc in outs:
                 if oc != 'normal': nxt.append((cur, oc)); continue
                 if isinstance(s, (ast.For, ast.While)): nxt += self.ex_loop(s, cur, path + [li])
@@ -637,7 +641,10 @@ class Engine:
             for cond, blk in ((c, s.body), (Not(c), s.orelse)):
                 sx = st.copy(); sx.pc.append(cond)
                 if not self.feasible(sx): continue
-                out += self.ex_block(blk, sx, path)
+                sub = path
+                if self.cur.if_ordinals:        # loops inside the k-th `if` of a block are numbered if<k>.0, if<k>.1 ... (else<k>.0 ...) instead of restarting at 0
+                    sub = path + [('if' if blk is s.body else 'else') + str(getattr(s, '_if_index', 0))]
+                out += self.ex_block(blk, sx, sub)
             return out
         raise Unsupported(f'statement {type(s).__name__} (line {s.lineno})')
 
@@ -756,7 +763,9 @@ class Engine:
                 self.obls.append(ob); ex.pc.append(g)
             lp = self.cur.loop_post.get(ordinal)
             if lp is not None:
-                g = unwrap(lp(NS(ex.env))); self.oblige(ex, f'loop {ordinal} exit-lemma', g, s.lineno); ex.pc.append(g)
+                gs = lp(NS(ex.env))
+                for gi, g in enumerate(gs if isinstance(gs, (list, tuple)) else [gs]):        # a list: proved in order, each available to the next
+                    g = unwrap(g); self.oblige(ex, f'loop {ordinal} exit-lemma' + (f' step {gi}' if isinstance(gs, (list, tuple)) else ''), g, s.lineno); ex.pc.append(g)
             return ex
         if isinstance(s, ast.While):
             self.oblige(st, f'loop {ordinal} inv-entry', INV(st, None), s.lineno)
